@@ -26,6 +26,27 @@ CHECKS = [
         "'every view after every history' beyond these classes, nor that foreign traffic never alters tracked state (behavioural).",
         "note": BASE_NOTE + " datetime within 10 years of datetime.min/max is outside the model for this property.",
     },
+    {
+        "id": "C18",
+        "technique": "static analysis: bracket pairing on all exits (CFG with exceptional + cancellation edges); alias rule for module-level mutable constants; path/dominance rules",
+        "text": "Decides that every path from tcs._obtain_lock() to any exit of a schedule transfer (incl. protocol errors from each fragment "
+        "exchange and cancellation by the caller's timeout at each await) passes _release_lock(); that no module-level mutable sentinel is "
+        "aliased by an instance attribute that is mutated in place; that the change counter is read with I/O before the first fragment request; "
+        "and that overheard fragments are merged only under a test of the lock owner. Does not decide 'never a schedule stitched from two "
+        "versions' as a trace property, nor termination of the fragment loop.",
+        "note": BASE_NOTE,
+    },
+    {
+        "id": "C20",
+        "technique": "static analysis: future typestate (pending/done/cancelled) with dominance-based discharges; state-chain table rule; restricted exception-effect closure; timer pairing",
+        "text": "Decides, over binding_fsm.py, that no set_result/set_exception reachable from a timer/message callback or the timeout path can run "
+        "on a done/cancelled future and that no wait_for() is applied to the bare state future; that every state's success chain ends in a "
+        "not-binding state and every failure path (wait timer, send failure) transitions to DevHasFailedBinding before the error reaches the "
+        "caller; that only BindingError/CommandInvalid can leave the two entry points (send errors converted by one helper, used for every "
+        "binding command); that armed wait timers are cancelled on leaving the state; and that the three 1FC9 phase tests are mutually exclusive. "
+        "Does not decide that both ends succeed under every interleaving (behavioural).",
+        "note": BASE_NOTE,
+    },
 ]
 
 NOT_APPLICABLE = [
